@@ -60,8 +60,10 @@ func specStr(s *EntSpec) string {
 type TxSpec struct {
 	Ops    []Op `json:"ops"`
 	System bool `json:"system,omitempty"` // run with ctx.GetSystemContext()
-	Fail   bool `json:"fail,omitempty"`   // the caller's function returns an error after its operations succeeded
-	Batch  bool `json:"batch,omitempty"`  // use Db.Batch instead of Db.Update
+	// DeriveSystemFirst: derive a system context from the ordinary one, discard it, then work with the ordinary one
+	DeriveSystemFirst bool `json:"deriveSystemFirst,omitempty"`
+	Fail              bool `json:"fail,omitempty"`  // the caller's function returns an error after its operations succeeded
+	Batch             bool `json:"batch,omitempty"` // use Db.Batch instead of Db.Update
 }
 
 func (t TxSpec) String() string {
@@ -72,6 +74,9 @@ func (t TxSpec) String() string {
 	flags := ""
 	if t.System {
 		flags += " [system ctx]"
+	}
+	if t.DeriveSystemFirst {
+		flags += " [system ctx derived and discarded first]"
 	}
 	if t.Fail {
 		flags += " [caller returns error]"
@@ -342,6 +347,8 @@ func RunTxWith(w *World, m *Model, tx TxSpec, pre func(ctx boltz.MutateContext))
 		}
 		if tx.System {
 			ctx = ctx.GetSystemContext()
+		} else if tx.DeriveSystemFirst {
+			_ = ctx.GetSystemContext()
 		}
 		for _, op := range tx.Ops {
 			pre := trial.Clone()
